@@ -14,7 +14,8 @@ TChoices == {FirstData, SomeDir, {N, 0}} \ {{}}
 H(name, T, rec) == hist' = Append(hist, [name |-> name, T |-> T, rec |-> rec])
 
 GInit == Init /\ hist = <<>> /\ a \in {A1, A2, A3, A5}
-GNext == \/ GetNames /\ H("getnames", {}, FALSE)
+GNext == \/ WrongMode /\ H("wrongmode", {}, FALSE)
+         \/ GetNames /\ H("getnames", {}, FALSE)
          \/ List /\ H("list", {}, FALSE)
          \/ GetInfo /\ H("getinfo", {}, FALSE)
          \/ ArchiveInfo /\ H("archiveinfo", {}, FALSE)
